@@ -155,6 +155,17 @@ pub open spec fn env_element_kind(k: ParseElement) -> bool {
 //@ contract SubRule::get_contexts ret=r
     ensures self.context is None ==> r@.len() == 0,
 //@ end
+// R6 stubs WITH the precondition their bodies need (insertion_after indexes `states[0]`; insertion_before passes index 0 to
+// context_match, unwraps `states.first()` and computes `states.len() - 1`)
+//@ contract SubRule::insertion_after ret=r
+    requires /*#insertion_after.needs_a_nonempty_context_half C02*/ states@.len() > 0,
+//@ end
+//@ contract SubRule::insertion_before ret=r
+    requires /*#insertion_before.needs_a_nonempty_context_half C02*/ states@.len() > 0,
+//@ end
+//@ contract SubRule::insertion_between ret=r
+    requires /*#insertion_between.needs_two_nonempty_context_halves C02*/ bef_states@.len() > 0 && aft_states@.len() > 0,
+//@ end
 //@ contract SubRule::insertion_match ret=r
     // the parser never yields a rule without output elements (EmptyOutput) -- precondition, unchecked at the call site
     requires self.output@.len() > 0,
